@@ -3,7 +3,7 @@ import z3
 
 from vf.pyvc.values import V, SV, Obj, SeqV, CaseV, Undecided, fresh_name
 from vf.pyvc.api import FuncCheck
-from contracts.common import new_engine, finish_engine
+from contracts.common import new_engine, finish_engine, report_a_failures
 
 LEVEL = 'proof'
 CV = 'rsatoolbox.inference.crossvalsets.'
@@ -20,10 +20,29 @@ def _esym(G, name):
     return z3.Const(fresh_name(name), V) if G.esort == 'val' else z3.Int(fresh_name(name))
 
 
+def _selection_of(ck, E, obj, rdms, desc, method, label_prefix, quiet=False):
+    """the group sequence an RDMs object was selected with: obj must be rdms.<method>(desc, groups)"""
+    from vf.pyvc.values import CaseV as _C
+    if isinstance(obj, _C):
+        parts = [(g, _selection_of(ck, E, v, rdms, desc, method, label_prefix, quiet)) for g, v in obj.cases]
+        if any(p[1] is None for p in parts):
+            return None
+        return _C(parts)
+    app = getattr(obj, 'app', None)
+    if app is None or app[0] != f'RDMs.{method}' or app[1][0] is not rdms:
+        if not quiet:
+            ck.ensure(f'{label_prefix}/contents-built-by-{method}', z3.BoolVal(False),
+                      note=f'returned object is not rdms.{method}(descriptor, groups): {app[0] if app else obj!r}')
+        return None
+    if not quiet:
+        ck.ensure_eq(f'{label_prefix}/contents-descriptor', app[1][1], desc)
+    return app[1][2]
+
+
 def fold_post(label_prefix, which, method, exhaustive=True):
     """property-level postcondition of a fold generator over one factor.
     which: 'pattern_descriptors' | 'rdm_descriptors'; method: RDMs method that must build the sets"""
-    def post(ck, E, args, kw, p, desc=None, rdms=None, k=None, idx_pos=1):
+    def post(ck, E, args, kw, p, desc=None, rdms=None, k=None, idx_pos=1, single_fold_is_no_cv=False):
         train, test, ceil = p.value
         G = groups_of(E, rdms, which, desc)
         n = G.zlen()
@@ -36,7 +55,13 @@ def fold_post(label_prefix, which, method, exhaustive=True):
         p.pc = list(E.pc)
         ti, tj = E.seq_elem(test, i), E.seq_elem(test, j)
         ri = E.seq_elem(train, i)
-        test_i, test_j, train_i = E.getitem(ti, idx_pos), E.getitem(tj, idx_pos), E.getitem(ri, idx_pos)
+        if idx_pos is not None:
+            test_i, test_j, train_i = E.getitem(ti, idx_pos), E.getitem(tj, idx_pos), E.getitem(ri, idx_pos)
+        else:
+            test_i, test_j, train_i = (_selection_of(ck, E, E.getitem(x, 0), rdms, desc, method, label_prefix)
+                                       for x in (ti, tj, ri))
+            if test_i is None or test_j is None or train_i is None:
+                return train, test, ceil
         y = _esym(G, 'y')
         in_test_i, in_test_j, in_train_i = E.seq_mem(test_i, y), E.seq_mem(test_j, y), E.seq_mem(train_i, y)
         isG = E.seq_mem(G, y)
@@ -44,19 +69,30 @@ def fold_post(label_prefix, which, method, exhaustive=True):
         ck.ensure(f'{label_prefix}/train-subset-of-groups', z3.Implies(in_train_i, isG))
         ck.ensure(f'{label_prefix}/train-test-disjoint', z3.Implies(kk > 1, z3.Not(z3.And(in_test_i, in_train_i))))
         ck.ensure(f'{label_prefix}/train-is-complement', z3.Implies(z3.And(kk > 1, isG), z3.Or(in_test_i, in_train_i)))
-        ck.ensure(f'{label_prefix}/no-cv-when-single-fold', z3.Implies(kk == 1, in_test_i == in_train_i))
+        if single_fold_is_no_cv:
+            ck.ensure(f'{label_prefix}/no-cv-when-single-fold', z3.Implies(kk == 1, in_test_i == in_train_i))
         if exhaustive:
             ck.ensure(f'{label_prefix}/folds-disjoint', z3.Implies(i != j, z3.Not(z3.And(in_test_i, in_test_j))))
             li, lj = E.as_int(E.seq_len(test_i)), E.as_int(E.seq_len(test_j))
             ck.ensure(f'{label_prefix}/balanced', z3.And(li - lj <= 1, lj - li <= 1))
-            # cover: every group lies in some test fold (witness: z3 instantiates the fold index)
-            w = z3.Int(fresh_name('w'))
-            tw = E.getitem(E.seq_elem(test, w), idx_pos)
-            ck.ensure(f'{label_prefix}/cover', z3.Implies(isG, z3.Exists([w], z3.And(w >= 0, w < kk, E.seq_mem(tw, y)))))
+            # cover: every group lies in some test fold.  Witness candidates for the fold index are
+            # computed from the position q of the group in the (possibly shuffled) group order.
+            gsz = n / kk
+            pos = [G.inv(y)] + [pinv(G.inv(y)) for (_pi, pinv, _n) in getattr(p, 'perms', [])]
+            cands = []
+            for q in pos:
+                cands += [q / z3.If(gsz > 0, gsz, 1), n - 1 - q]
+            alts = []
+            for w in cands:
+                tw = E.getitem(E.seq_elem(test, w), idx_pos) if idx_pos is not None else \
+                    _selection_of(ck, E, E.getitem(E.seq_elem(test, w), 0), rdms, desc, method, label_prefix, quiet=True)
+                alts.append(z3.And(w >= 0, w < kk, E.seq_mem(tw, y)))
+            ck.ensure(f'{label_prefix}/cover', z3.Implies(isG, z3.Or(alts)))
         # contents: the objects are exactly the advertised selections of the source
-        m = E.methods[('RDMs', method)]
-        ck.ensure_eq(f'{label_prefix}/contents-test', E.getitem(ti, 0), m(E, rdms, desc, test_i))
-        ck.ensure_eq(f'{label_prefix}/contents-train', E.getitem(ri, 0), m(E, rdms, desc, train_i))
+        if idx_pos is not None:
+            m = E.methods[('RDMs', method)]
+            ck.ensure_eq(f'{label_prefix}/contents-test', E.getitem(ti, 0), m(E, rdms, desc, test_i))
+            ck.ensure_eq(f'{label_prefix}/contents-train', E.getitem(ri, 0), m(E, rdms, desc, train_i))
         return train, test, ceil
     return post
 
@@ -76,7 +112,7 @@ def check_k_fold_pattern(run, E):
 
             def post(ck, E, args, kw, p):
                 rdms, pd, k, rnd = args
-                train, test, ceil = base(ck, E, args, kw, p, desc=pd, rdms=rdms, k=k)
+                train, test, ceil = base(ck, E, args, kw, p, desc=pd, rdms=rdms, k=k, single_fold_is_no_cv=True)
                 ck.ensure('post/ceil-none', ceil is None)
 
             def allow(E, args, kw, p):
@@ -92,12 +128,448 @@ def check_k_fold_pattern(run, E):
             yield ck
 
 
+def check_k_fold_rdm(run, E):
+    base = fold_post('post', 'rdm_descriptors', 'subsample')
+    for kcase in ('int', 'none'):
+        for rnd in (False, True):
+            ck = FuncCheck(E, run, 'C05', CV + 'sets_k_fold_rdm', f'k={kcase},random={rnd}')
+
+            def mk(E, kcase=kcase, rnd=rnd):
+                rdms = E.sym_obj('rdms', 'RDMs')
+                rd = E.sym_val('rd', tag='scalar')
+                k = E.sym_int('k') if kcase == 'int' else None
+                return [rdms, k, rnd, rd], {}, ([k.z >= 2] if k is not None else [])
+
+            def post(ck, E, args, kw, p):
+                rdms, k, rnd, rd = args
+                train, test, ceil = base(ck, E, args, kw, p, desc=rd, rdms=rdms, k=k, idx_pos=None)
+                # rdm-only schemes: the ceiling sets are the training sets; all conditions are kept
+                ck.ensure('post/ceil-is-train', ceil is train)
+                i = z3.Int(fresh_name('ci'))
+                E.pc.append(z3.And(i >= 0, i < E.as_int(E.seq_len(test))))
+                p.pc = list(E.pc)
+
+            def allow(E, args, kw, p):
+                rdms, k, rnd, rd = args
+                if p.exc.exc_name != 'AssertionError':
+                    return None
+                n = groups_of(E, rdms, 'rdm_descriptors', rd).zlen()
+                return n < 2 if k is None else E.as_int(k) > n
+            ck.execute(mk, post=post, allow_raise=allow)
+            yield ck
+
+
+def check_of_k(run, E):
+    """sets_of_k_*: call-site conformance and delegation (the partition clauses are those of the callee)"""
+    for fn, callee, which in (('sets_of_k_pattern', 'sets_k_fold_pattern', 'pattern_descriptors'),
+                              ('sets_of_k_rdm', 'sets_k_fold_rdm', 'rdm_descriptors')):
+        for rnd in (False, True):
+            ck = FuncCheck(E, run, 'C05', CV + fn, f'random={rnd}')
+
+            def mk(E, rnd=rnd):
+                rdms = E.sym_obj('rdms', 'RDMs')
+                d = E.sym_val('desc', tag='scalar')
+                k = E.sym_int('k')
+                return [rdms, d, k, rnd], {}, [k.z >= 1]
+
+            def post(ck, E, args, kw, p, callee=callee, which=which):
+                rdms, d, k, rnd = args
+                n = groups_of(E, rdms, which, d).zlen()
+                kz = E.as_int(k)
+                app = getattr(p.value, 'app', None)
+                ok = app is not None and app[0] == CV + callee
+                ck.ensure('post/delegates-to-k-fold', z3.BoolVal(ok))
+                if ok:
+                    fv = E.find_function(CV + callee)
+                    names = [a.arg for a in fv.node.args.args]
+                    got = dict(zip(names, app[1]))
+                    ck.ensure_eq('post/same-data', got['rdms'], rdms)
+                    ck.ensure_eq('post/same-descriptor', got[[x for x in names if 'descriptor' in x][0]], d)
+                    kk = got['k'] if 'k' in got else got['k_rdm']
+                    # number of folds = floor(#groups / k): groups of (at least) k
+                    ck.ensure('post/fold-count', z3.And(E.as_int(kk) * kz <= n, (E.as_int(kk) + 1) * kz > n))
+                    ck.ensure_eq('post/random-forwarded', got['random'], rnd)
+
+            def allow(E, args, kw, p, which=which):
+                rdms, d, k, rnd = args
+                if p.exc.exc_name != 'AssertionError':
+                    return None
+                n = groups_of(E, rdms, which, d).zlen()
+                return 2 * E.as_int(k) > n
+            E.no_inline = {CV + callee}
+            saved = dict(E.contracts)
+            ck.execute(mk, post=post, allow_raise=allow)
+            E.no_inline = set()
+            yield ck
+
+
+def check_leave_one_out(run, E):
+    for fn, which, method in (('sets_leave_one_out_pattern', 'pattern_descriptors', 'subset_pattern'),
+                              ('sets_leave_one_out_rdm', 'rdm_descriptors', 'subset')):
+        base = fold_post('post', which, method)
+        ck = FuncCheck(E, run, 'C05', CV + fn, '')
+
+        def mk(E):
+            rdms = E.sym_obj('rdms', 'RDMs')
+            d = E.sym_val('desc', tag='scalar')
+            return [rdms, d], {}, []
+
+        def post(ck, E, args, kw, p, fn=fn, which=which):
+            rdms, d = args
+            n = groups_of(E, rdms, which, d).zlen()
+            if fn.endswith('pattern'):
+                train, test, ceil = base(ck, E, args, kw, p, desc=d, rdms=rdms, idx_pos=1)
+                ck.ensure('post/one-fold-per-group', E.as_int(E.seq_len(test)) == n)
+            else:
+                # with a single group the function documents "no cross-validation": all three sets are the data
+                single = E.prove(n <= 1, pc=p.pc)[0] == 'proved'
+                if single:
+                    ck.ensure_eq('post/single-group-returns-data', E.getitem(E.getitem(p.value[1], 0), 0), rdms)
+                else:
+                    train, test, ceil = base(ck, E, args, kw, p, desc=d, rdms=rdms, idx_pos=None)
+                    ck.ensure('post/one-fold-per-group', E.as_int(E.seq_len(test)) == n)
+                    ck.ensure('post/ceil-is-train', ceil is train)
+        ck.execute(mk, post=post, allow_raise=lambda *a: None)
+        yield ck
+
+
 def run(run):
     E = new_engine(run)
     fails = []
-    for ck in check_k_fold_pattern(run, E):
-        fails += ck.failed
+    for gen in (check_k_fold_pattern, check_k_fold_rdm, check_of_k, check_leave_one_out):
+        for ck in gen(run, E):
+            fails += ck.failed
     finish_engine(E, run)
-    for nm, label, detail in fails:
-        run.violation(nm, 'all-inputs', dict(obligation=nm, detail=detail), found_input=False,
-                      what='engine-A obligation refuted')
+    bds = [tier_c_folds(run, run.tier == 'thorough'), tier_c_noninterference(run, run.tier == 'thorough')]
+    report_a_failures(run, fails, bds)
+
+
+# =====================================================================================================
+# tier C: bounded run-time oracles on the real functions (concrete replays; never counted as proved)
+# =====================================================================================================
+import itertools
+import numpy as np
+from vf.rt.harness import oracle, Bounded, replay_file, close
+
+
+def _mk_rdms(n_rdm, n_cond, rgroups, pgroups):
+    """RDMs with sentinel values: entry (r, a<b) = 1000*(r+1) + 30*a + b ; ids in descriptors"""
+    from rsatoolbox.rdm import RDMs
+    vec = []
+    for r in range(n_rdm):
+        vec.append([1000.0 * (r + 1) + 30 * a + b for a in range(n_cond) for b in range(a + 1, n_cond)])
+    return RDMs(np.array(vec), rdm_descriptors={'rid': list(range(n_rdm)), 'rg': list(rgroups)},
+                pattern_descriptors={'cid': list(range(n_cond)), 'pg': list(pgroups)})
+
+
+def _content_ok(obj, where):
+    """every entry of obj equals the sentinel of its own (rid, cid, cid) labels"""
+    m = obj.get_matrices()
+    rid = list(obj.rdm_descriptors['rid'])
+    cid = list(obj.pattern_descriptors['cid'])
+    for r in range(m.shape[0]):
+        for a in range(len(cid)):
+            for b in range(len(cid)):
+                if a == b:
+                    continue
+                lo, hi = min(cid[a], cid[b]), max(cid[a], cid[b])
+                want = 1000.0 * (rid[r] + 1) + 30 * lo + hi if lo != hi else float('nan')
+                got = m[r, a, b]
+                if not (got == want or (np.isnan(got) and np.isnan(want))):
+                    return f'{where}: entry rid={rid[r]} cid=({cid[a]},{cid[b]}) is {got}, source has {want}'
+    return None
+
+
+def _expect_members(obj, rg_set, pg_set, src_rg, src_pg, where):
+    """obj contains exactly the RDMs with rg in rg_set and the conditions with pg in pg_set (all copies)"""
+    want_r = sorted(i for i, g in enumerate(src_rg) if g in rg_set)
+    want_c = sorted(i for i, g in enumerate(src_pg) if g in pg_set)
+    got_r = sorted(obj.rdm_descriptors['rid'])
+    got_c = sorted(obj.pattern_descriptors['cid'])
+    if got_r != want_r:
+        return f'{where}: RDM ids {got_r}, advertised groups {sorted(rg_set)} mean {want_r}'
+    if got_c != want_c:
+        return f'{where}: condition ids {got_c}, advertised groups {sorted(pg_set)} mean {want_c}'
+    return _content_ok(obj, where)
+
+
+@oracle('C05/folds')
+def orc_folds(case):
+    import rsatoolbox.inference.crossvalsets as cvs
+    n_rdm, n_cond = case['n_rdm'], case['n_cond']
+    rg, pg = case['rg'], case['pg']
+    rdms = _mk_rdms(n_rdm, n_cond, rg, pg)
+    gen = case['gen']
+    np.random.seed(case.get('seed', 0))
+    all_rg, all_pg = set(rg), set(pg)
+    exhaustive = True
+    if gen == 'leave_one_out_pattern':
+        tr, te, ce = cvs.sets_leave_one_out_pattern(rdms, 'pg')
+        factors = ('p',)
+    elif gen == 'leave_one_out_rdm':
+        tr, te, ce = cvs.sets_leave_one_out_rdm(rdms, 'rg')
+        factors = ('r',)
+    elif gen == 'k_fold_pattern':
+        tr, te, ce = cvs.sets_k_fold_pattern(rdms, 'pg', k=case['k'], random=case['random'])
+        factors = ('p',)
+    elif gen == 'k_fold_rdm':
+        tr, te, ce = cvs.sets_k_fold_rdm(rdms, k_rdm=case['k'], random=case['random'], rdm_descriptor='rg')
+        factors = ('r',)
+    elif gen == 'of_k_pattern':
+        tr, te, ce = cvs.sets_of_k_pattern(rdms, 'pg', k=case['k'], random=case['random'])
+        factors = ('p',)
+    elif gen == 'of_k_rdm':
+        tr, te, ce = cvs.sets_of_k_rdm(rdms, 'rg', k=case['k'], random=case['random'])
+        factors = ('r',)
+    elif gen == 'k_fold':
+        tr, te, ce = cvs.sets_k_fold(rdms, k_rdm=case['k_rdm'], k_pattern=case['k'], random=case['random'],
+                                     pattern_descriptor='pg', rdm_descriptor='rg')
+        factors = ('r', 'p')
+    elif gen == 'random':
+        tr, te, ce = cvs.sets_random(rdms, n_rdm=case['k_rdm'], n_pattern=case['k'], n_cv=case['n_cv'],
+                                     pattern_descriptor='pg', rdm_descriptor='rg')
+        factors, exhaustive = ('r', 'p'), False
+    else:
+        raise ValueError(gen)
+    if len(tr) != len(te):
+        return f'{len(tr)} training sets but {len(te)} test sets'
+    n_fold = len(te)
+    # is each factor actually cross-validated (more than one fold requested along it)?
+    cv_r = 'r' in factors
+    cv_p = 'p' in factors
+    if gen == 'k_fold':
+        cv_r, cv_p = case['k_rdm'] > 1, case['k'] > 1
+    elif gen == 'random':
+        cv_r, cv_p = case['k_rdm'] > 0, case['k'] > 0
+    elif gen == 'k_fold_pattern':
+        cv_p = case['k'] > 1
+    elif gen == 'of_k_pattern':
+        cv_p = int(len(all_pg) / case['k']) > 1
+    elif gen == 'k_fold_rdm':
+        cv_r = case['k'] > 1
+    elif gen == 'of_k_rdm':
+        cv_r = int(len(all_rg) / case['k']) > 1
+    elif gen == 'leave_one_out_rdm':
+        cv_r = len(all_rg) > 1
+    elif gen == 'leave_one_out_pattern':
+        cv_p = len(all_pg) > 1
+    seen = {}
+    sizes = []
+    for f in range(n_fold):
+        t_obj, r_obj = te[f][0], tr[f][0]
+        t_rg, r_rg = set(t_obj.rdm_descriptors['rg']), set(r_obj.rdm_descriptors['rg'])
+        t_pg, r_pg = set(t_obj.pattern_descriptors['pg']), set(r_obj.pattern_descriptors['pg'])
+        if 'p' in factors:
+            if set(te[f][1]) != t_pg:
+                return f'fold {f}: test index list {sorted(set(te[f][1]))} but test object holds groups {sorted(t_pg)}'
+            if set(tr[f][1]) != r_pg:
+                return f'fold {f}: train index list {sorted(set(tr[f][1]))} but train object holds groups {sorted(r_pg)}'
+        for nm, obj, rgs, pgs in (('test', t_obj, t_rg, t_pg), ('train', r_obj, r_rg, r_pg)):
+            msg = _expect_members(obj, rgs, pgs, rg, pg, f'fold {f} {nm}')
+            if msg:
+                return msg
+        if cv_r:
+            if t_rg & r_rg:
+                return f'fold {f}: RDM groups {sorted(t_rg & r_rg)} are in both the training and the test set'
+            if exhaustive and (t_rg | r_rg) != all_rg:
+                return f'fold {f}: RDM groups {sorted(all_rg - t_rg - r_rg)} are in neither set'
+        elif 'r' not in factors and (t_rg != all_rg or r_rg != all_rg):
+            return f'fold {f}: RDMs were dropped although only conditions are cross-validated'
+        if cv_p:
+            if t_pg & r_pg:
+                return f'fold {f}: condition groups {sorted(t_pg & r_pg)} are in both the training and the test set'
+            if exhaustive and (t_pg | r_pg) != all_pg:
+                return f'fold {f}: condition groups {sorted(all_pg - t_pg - r_pg)} are in neither set'
+        elif 'p' not in factors and (t_pg != all_pg or r_pg != all_pg):
+            return f'fold {f}: conditions were dropped although only RDMs are cross-validated'
+        for a in (t_rg if 'r' in factors else [None]):
+            for b in (t_pg if 'p' in factors else [None]):
+                seen[(a, b)] = seen.get((a, b), 0) + 1
+        sizes.append((len(t_rg) if 'r' in factors else 0, len(t_pg) if 'p' in factors else 0))
+        if ce is None:
+            if gen not in ('k_fold_pattern', 'of_k_pattern'):
+                return 'ceil_set is None for a scheme that advertises ceiling sets'
+        else:
+            c_obj = ce[f][0]
+            if gen in ('k_fold_rdm', 'of_k_rdm', 'leave_one_out_rdm'):
+                want_r, want_p = r_rg, all_pg
+            elif gen == 'leave_one_out_pattern':
+                want_r, want_p = all_rg, t_pg
+            else:
+                want_r, want_p = r_rg, t_pg
+            msg = _expect_members(c_obj, want_r, want_p, rg, pg, f'fold {f} ceil')
+            if msg:
+                return msg + ' (ceiling set must be the training RDMs at the test conditions)'
+    if exhaustive:
+        cells = [(a, b) for a in (all_rg if 'r' in factors else [None]) for b in (all_pg if 'p' in factors else [None])]
+        for c in cells:
+            if seen.get(c, 0) != 1:
+                return f'group cell {c} is tested {seen.get(c, 0)} times (must be exactly once)'
+        for d in (0, 1):
+            ss = [s[d] for s in sizes]
+            if max(ss) - min(ss) > 1:
+                return f'test fold sizes differ by more than one: {ss}'
+    return None
+
+
+def _groupings(n):
+    """identity grouping and groupings with repeated values (bootstrap copies / larger groups)"""
+    out = [list(range(n))]
+    if n >= 4:
+        out.append([i // 2 for i in range(n)])
+    if n >= 5:
+        out.append([(i * 7) % (n - 2) for i in range(n)])
+    return out
+
+
+def tier_c_folds(run, thorough):
+    bd = Bounded(run, 'C05/folds', 'C05/fold-generators/oracle/partition-and-contents',
+                 'all generators; n_rdm 2..%d, n_cond 3..%d; identity / repeated-value groupings; every admissible k; '
+                 'ordered and %d shuffle seeds' % ((6, 8, 6) if thorough else (4, 6, 2)), exhaustive=False,
+                 function='sets_*')
+    R = range(2, 7 if thorough else 5)
+    Cn = range(3, 9 if thorough else 7)
+    seeds = range(6 if thorough else 2)
+
+    def chk(case, gen):
+        bd.check(orc_folds, dict(case, gen=gen), gen, function='sets_' + gen)
+    for n_rdm in R:
+        for n_cond in Cn:
+            for rg in _groupings(n_rdm):
+                for pg in _groupings(n_cond):
+                    nrg, npg = len(set(rg)), len(set(pg))
+                    base = dict(n_rdm=n_rdm, n_cond=n_cond, rg=rg, pg=pg)
+                    chk(base, 'leave_one_out_pattern')
+                    chk(base, 'leave_one_out_rdm')
+                    for rnd, seed in [(False, 0)] + [(True, s) for s in seeds]:
+                        for k in range(1, npg + 1):
+                            chk(dict(base, k=k, random=rnd, seed=seed), 'k_fold_pattern')
+                        for k in range(2, nrg + 1):
+                            chk(dict(base, k=k, random=rnd, seed=seed), 'k_fold_rdm')
+                        for k in range(1, npg // 2 + 1):
+                            chk(dict(base, k=k, random=rnd, seed=seed), 'of_k_pattern')
+                        for k in range(1, nrg // 2 + 1):
+                            if int(nrg / k) >= 2:
+                                chk(dict(base, k=k, random=rnd, seed=seed), 'of_k_rdm')
+                        if rnd is False or seed == 0:
+                            for kr in range(1, nrg + 1):
+                                for kp in range(1, npg + 1):
+                                    chk(dict(base, k=kp, k_rdm=kr, random=rnd, seed=seed), 'k_fold')
+                    for nr in range(0, nrg):
+                        for npat in range(0, npg):
+                            chk(dict(base, k=npat, k_rdm=nr, n_cv=2, seed=1), 'random')
+    bd.done()
+    return bd
+
+
+def replay(path):
+    return replay_file(path)
+
+
+# ---- non-interference of cross-validated evaluation (2-safety, bounded) ----------------------------
+@oracle('C05/noninterference')
+def orc_noninterference(case):
+    """fitted parameters of a fold do not depend on test-only data; the fold's score (parameters frozen)
+    does not depend on data outside the fold's test RDMs x test conditions"""
+    from rsatoolbox.rdm import RDMs, compare
+    from rsatoolbox.inference import crossval, sets_k_fold
+    from rsatoolbox.model import ModelWeighted
+    rs = np.random.RandomState(case['seed'])
+    n_rdm, n_cond, n_model = case['n_rdm'], case['n_cond'], case['n_model']
+    n_pair = n_cond * (n_cond - 1) // 2
+    rg = case.get('rg') or list(range(n_rdm))
+    pg = case.get('pg') or list(range(n_cond))
+
+    def mk(vec):
+        return RDMs(vec.copy(), rdm_descriptors={'rg': list(rg), 'rid': list(range(n_rdm))},
+                    pattern_descriptors={'pg': list(pg), 'cid': list(range(n_cond))})
+    base = rs.rand(n_rdm, n_pair) + 0.1
+    basis = [RDMs(rs.rand(2, n_pair) + 0.1, pattern_descriptors={'pg': list(pg), 'cid': list(range(n_cond))})
+             for _ in range(n_model)]
+    models = [ModelWeighted(f'm{j}', basis[j]) for j in range(n_model)]
+    method = case['method']
+
+    def sets(data):
+        return sets_k_fold(data, k_rdm=case['k_rdm'], k_pattern=case['k_pattern'], random=False,
+                           pattern_descriptor='pg', rdm_descriptor='rg')
+    log = []
+
+    def rec_fitter(model, data, method='cosine', pattern_idx=None, pattern_descriptor=None, **kw):
+        from rsatoolbox.model.fitter import fit_regress
+        th = fit_regress(model, data, method=method, pattern_idx=pattern_idx, pattern_descriptor=pattern_descriptor)
+        log.append(np.array(th, dtype=float))
+        return th
+    frozen = [rs.rand(2) + 0.1 for _ in range(n_model)]
+
+    def frozen_fitter(model, data, method='cosine', pattern_idx=None, pattern_descriptor=None, **kw):
+        return frozen[int(model.name[1:])]
+
+    def run_cv(vec, fitter):
+        data = mk(vec)
+        tr, te, ce = sets(data)
+        res = crossval(models, data, tr, te, ce, method=method, fitter=fitter, pattern_descriptor='pg')
+        return res, tr, te
+    log.clear()
+    res0, tr, te = run_cv(base, rec_fitter)
+    thetas0 = [x.copy() for x in log]
+    n_fold = len(te)
+    if len(thetas0) != n_fold * n_model:
+        return f'{len(thetas0)} fits for {n_fold} folds x {n_model} models'
+    pairs = [(a, b) for a in range(n_cond) for b in range(a + 1, n_cond)]
+    f = case['fold'] % n_fold
+    t_r, r_r = set(te[f][0].rdm_descriptors['rid']), set(tr[f][0].rdm_descriptors['rid'])
+    t_c, r_c = set(te[f][0].pattern_descriptors['cid']), set(tr[f][0].pattern_descriptors['cid'])
+    alt = base.copy()
+    touched = 0
+    for r in range(n_rdm):
+        for k, (a, b) in enumerate(pairs):
+            if (r in t_r and r not in r_r) or (a in t_c and a not in r_c) or (b in t_c and b not in r_c):
+                alt[r, k] += 1.0 + rs.rand()
+                touched += 1
+    if touched:
+        log.clear()
+        run_cv(alt, rec_fitter)
+        for j in range(n_model):
+            a, b = thetas0[f * n_model + j], log[f * n_model + j]
+            if not close(a, b, 1e-9):
+                return (f'fold {f} model {j}: fitted parameters changed from {a.tolist()} to {b.tolist()} when only '
+                        f'test-only data ({touched} entries) were altered')
+    resA, _, _ = run_cv(base, frozen_fitter)
+    alt2 = base.copy()
+    touched2 = 0
+    for r in range(n_rdm):
+        for k, (a, b) in enumerate(pairs):
+            if not (r in t_r and a in t_c and b in t_c):
+                alt2[r, k] += 1.0 + rs.rand()
+                touched2 += 1
+    resB, _, _ = run_cv(alt2, frozen_fitter)
+    ea, eb = resA.evaluations[0, :, f], resB.evaluations[0, :, f]
+    if touched2 and not close(ea, eb, 1e-9):
+        return (f'fold {f}: scores changed from {ea.tolist()} to {eb.tolist()} with frozen parameters when only data '
+                f'outside the test RDMs x test conditions were altered')
+    for j in range(n_model):
+        pred = models[j].predict_rdm(frozen[j]).subsample_pattern('pg', te[f][1])
+        want = float(np.mean(compare(pred, te[f][0], method)))
+        if not close(ea[j], want, 1e-9):
+            return f'fold {f} model {j}: stored score {ea[j]} but direct comparison gives {want}'
+    return None
+
+
+def tier_c_noninterference(run, thorough):
+    bd = Bounded(run, 'C05/noninterference', 'C05/crossval/oracle/noninterference',
+                 'crossval with 1..3 weighted models (2 basis RDMs each), recording / frozen fitters; n_rdm 4..5, n_cond 8..9, '
+                 'k_rdm, k_pattern in {1,2}, methods cosine/corr; perturbation of test-only resp. non-test entries; every fold',
+                 function='crossval')
+    seeds = range(3 if thorough else 1)
+    for seed in seeds:
+        for n_model in (1, 2, 3):
+            for (n_rdm, n_cond) in ((4, 8), (5, 9)) if thorough else ((4, 8),):
+                for k_rdm in (1, 2):
+                    for k_pattern in (1, 2):
+                        for method in ('cosine', 'corr'):
+                            for fold in range(k_rdm * k_pattern):
+                                bd.check(orc_noninterference, dict(seed=seed, n_model=n_model, n_rdm=n_rdm, n_cond=n_cond,
+                                                                   k_rdm=k_rdm, k_pattern=k_pattern, method=method, fold=fold),
+                                         f'models={n_model}' if n_model > 1 else 'single-model')
+    bd.done()
+    return bd
